@@ -130,10 +130,15 @@ func genU32s(r *gen.Rand) []uint32 {
 	return l
 }
 
-// validVarintStream: a byte string made of complete varints (< 2^64), some non-minimal in value range ≥ 2^32.
-func validVarintStream(r *gen.Rand) []byte {
+// validVarintStream: a byte string made of complete varints (< 2^64), some in the value range ≥ 2^32 (truncated by
+// the decoders). With sized=true the first varint is a small size prefix (the decoders allocate that many elements up
+// front; absurd prefixes are C11's subject).
+func validVarintStream(r *gen.Rand, sized bool) []byte {
 	var b []byte
 	n := r.Intn(9)
+	if sized {
+		b = binary.AppendUvarint(b, uint64(gen.Pick(r, []int{n, n, 0, 1, 127, 128, 300})))
+	}
 	for i := 0; i < n; i++ {
 		var v uint64
 		switch r.Intn(4) {
@@ -159,9 +164,9 @@ func (h *harness) coderCases(r *gen.Rand, n int) {
 		case 1:
 			h.opCase("rt32 "+gen.NatList(genU32s(r)), "coder")
 		case 2:
-			h.opCase("dec32 "+gen.Hex(validVarintStream(r)), "coder")
+			h.opCase("dec32 "+gen.Hex(validVarintStream(r, true)), "coder")
 		case 3:
-			h.opCase("decraw "+gen.Hex(validVarintStream(r)), "coder")
+			h.opCase("decraw "+gen.Hex(validVarintStream(r, false)), "coder")
 		case 4:
 			l := genU32s(r)
 			for j := range l {
@@ -169,7 +174,7 @@ func (h *harness) coderCases(r *gen.Rand, n int) {
 			}
 			h.opCase("enc16 "+gen.NatList(l), "coder")
 		case 5:
-			h.opCase("dec16 "+gen.Hex(validVarintStream(r)), "coder")
+			h.opCase("dec16 "+gen.Hex(validVarintStream(r, true)), "coder")
 		case 6:
 			l := genU32s(r)
 			if len(l)%2 == 1 {
@@ -181,7 +186,7 @@ func (h *harness) coderCases(r *gen.Rand, n int) {
 			}
 			h.opCase("msec "+pairs(secs), "coder")
 		case 7:
-			h.opCase("usec "+gen.Hex(validVarintStream(r)), "coder")
+			h.opCase("usec "+gen.Hex(validVarintStream(r, true)), "coder")
 		}
 	}
 }
